@@ -200,6 +200,16 @@ def call_j(f, okf=lambda x: x):
     return ["ok", okf(r)]
 
 
+def _eq_mod_unsupported(m, i):
+    """equality in which a part the model declines to answer (`["unsupported", why]`, e.g. the extracted values of a
+    fetch whose value text has no eval answer) matches anything"""
+    if isinstance(m, list) and len(m) == 2 and m[0] == "unsupported" and isinstance(m[1], str):
+        return True
+    if isinstance(m, list) and isinstance(i, list):
+        return len(m) == len(i) and all(_eq_mod_unsupported(x, y) for x, y in zip(m, i))
+    return m == i
+
+
 def same_outcome(model, impl, compare_site=True):
     """compare a model answer with an implementation answer; None = skip (unsupported)"""
     if isinstance(model, list) and model and model[0] == "unsupported":
@@ -211,7 +221,7 @@ def same_outcome(model, impl, compare_site=True):
             return None
         return False  # the harness only sends texts the implementation parsed
     if model[0] == "ok" or impl[0] == "ok":
-        return model == impl
+        return _eq_mod_unsupported(model, impl)
     # both errors
     if model[1] != impl[1]:
         return False
